@@ -153,6 +153,20 @@ def gen_c09(rng, t, thorough):
             ops.append("read/%s/i" % reg["name"])
             react += [[] for _ in range(8)]            # silence: gives up after eight tries
             out.append(ACase("c09-errors", ops, react, tags, cfg=rng.below(4)))
+        # the list/stream API, several runs on one RegisterApi with the device's values changing in between
+        # (static registers too) and single reads interleaved: every value is the one sent in that run
+        regs = t["lists"][str(idx)]
+        order = [r for kind in (1, 2, 3, 4) for r in regs if r["kind"] == kind]
+        for variant in ("s", "m"):
+            ops, react = ["connect"], connect_react(dev)
+            for run in range(3):
+                ops.append("stream/15/all/-/%s" % variant)
+                for r in order:
+                    react.append([ev_data(get_resp(r["addr"], good_value(rng, r, t)))])
+                r = rng.choice(order)
+                ops.append("read/%s/b/%s" % (r["name"], bytes(good_value(rng, r, t)).hex()))
+                react.append([ev_data(get_resp(r["addr"], bytes.fromhex(ops[-1].split("/")[-1])))])
+            out.append(ACase("c09-reruns", ops, react, {"dev": dev}, cfg=rng.below(4)))
     return out
 
 
